@@ -43,3 +43,22 @@ Proof. exact FMG_fallback_only_next_to_boundary. Qed.
 Print Assumptions C09_lagrange4_exact_for_cubics.
 Print Assumptions C09_FMG_cubic_in_r.
 Print Assumptions C09_FMG_constants.
+
+(* ---- part (b): the FMG start-up is nested iteration from the coarsest level ---- *)
+From GMGP Require Import CycleDefs CycleProofs.
+Local Close Scope R_scope.
+Local Open Scope nat_scope.
+
+(* init_ops true ... IS the nested-iteration specification (solve coarsest; for cl = L-1..1: interpolate,
+   then the configured cycles); the op-trace correspondence checks that solve() executes exactly it.
+   The start depends on the right-hand sides only: no work vector's previous content is ever read. *)
+Theorem C09_fmg_start_depends_on_data_only : forall fmg fk iters pre post extrap fgs (L : nat), (2 <= L)%nat ->
+  rd_ok (rhs_bufs L) [] (init_ops fmg fk iters pre post extrap fgs L).
+Proof. exact init_rd_ok. Qed.
+
+Theorem C09_two_levels_zero_cycles : forall fk pre post extrap fgs,
+  init_ops true fk 0 pre post extrap fgs 2 =
+  [mkEv OCopy 1 [(1, Sol); (1, Rhs)]; mkEv ODirect 1 [(1, Sol)]; mkEv OFMG 1 [(0, Sol); (1, Sol)]].
+Proof. exact fmg_two_level_zero_cycles. Qed.
+
+Print Assumptions C09_fmg_start_depends_on_data_only.
